@@ -265,14 +265,17 @@ fn check_report(rep: &str, m: &Maps, tb: &Tables, via: &str, c11: bool, out: &mu
         let v_part = via == "vulnerability_report" || (via == "generate_report" && v_has);
         let o_part = via == "optimization_report" || (via == "generate_report" && o_has);
         if v_part {
-            if tot_v.len() != 1 || tot_v[0] != shown_v {
+            // a generator called directly for a category without findings may render an overview with total 0 or nothing
+            let nothing = via == "vulnerability_report" && !v_has && shown_v == 0 && tot_v.is_empty();
+            if !nothing && (tot_v.len() != 1 || tot_v[0] != shown_v) {
                 push(format!("{}:total-vulnerabilities", via), format!("one total equal to the {} entries listed in the vulnerability part", shown_v), format!("{:?}", tot_v));
             }
         } else if via == "generate_report" && (!tot_v.is_empty()) {
             push(format!("{}:vulnerability-part-without-findings", via), "no vulnerability part".into(), format!("totals {:?}", tot_v));
         }
         if o_part {
-            if tot_o.len() != 1 || tot_o[0] != shown_o {
+            let nothing = via == "optimization_report" && !o_has && shown_o == 0 && tot_o.is_empty();
+            if !nothing && (tot_o.len() != 1 || tot_o[0] != shown_o) {
                 push(format!("{}:total-optimizations", via), format!("one total equal to the {} entries listed in the optimization part", shown_o), format!("{:?}", tot_o));
             }
         } else if via == "generate_report" && (!tot_o.is_empty()) {
